@@ -80,7 +80,11 @@ class MutationAnalysis:
             # enum classes of the package / typing constructs over scalars
             r = None
             try:
-                r = self.lk.resolve(fi.module, ast.parse(ann, mode="eval").body)
+                from .model import keep
+                tree = keep(ast.parse(ann, mode="eval"))
+                for n in ast.walk(tree):
+                    fi.module.node_scope[id(n)] = fi.module.top
+                r = self.lk.resolve(fi.module, tree.body)
             except Exception:
                 r = None
             if r is not None and r.kind == "class":
